@@ -227,3 +227,31 @@ Example half_renamed_reset_driver_rejected :
   let g := run ex_g0 (firstn 5 ex_drv_ops) in
   inv_check (buggy_setLogicResetDriver g 0 7) = true /\ invd_check (buggy_setLogicResetDriver g 0 7) = false.
 Proof. vm_compute. split; reflexivity. Qed.
+
+(* ---- clause (ii) spelled out for the two node kinds a width slip of a pass hits first ---- *)
+
+(* a well-typed multiplexer: every connected data input has exactly the output type (width included) *)
+Theorem mux_inputs_have_output_type : forall g n nd k i b t,
+  getn g n = Some nd -> n_req nd = kind_req (KMux k) -> node_okb g nd = true ->
+  1 <= i <= k -> drv g (n, i) = Some b -> otype g b = Some t -> otype g (n, 0) = Some t.
+Proof. exact WfCheck.mux_inputs_have_output_type. Qed.
+Print Assumptions mux_inputs_have_output_type.
+
+(* a well-typed memory port: address is Log2C(depth) bits, write data is the word width, the enables are one bit *)
+Theorem memport_widths : forall g n nd ab db,
+  getn g n = Some nd -> n_req nd = kind_req (KMemPort ab db) -> node_okb g nd = true ->
+  (forall b t, drv g (n, 2) = Some b -> otype g b = Some t -> ct_width t = ab) /\
+  (forall b t, drv g (n, 3) = Some b -> otype g b = Some t -> ct_width t = db) /\
+  (forall b t, drv g (n, 0) = Some b -> otype g b = Some t -> ct_width t = 1%N) /\
+  (forall b t, drv g (n, 1) = Some b -> otype g b = Some t -> ct_width t = 1%N).
+Proof. exact WfCheck.memport_widths. Qed.
+Print Assumptions memport_widths.
+
+(* a 4-bit address source, a memory port that needs 4 address bits: accepted; the same port fed with 5 bits: rejected *)
+Example memport_width_checked :
+  let mk w := run empty_graph [OCreate 0 1 0 [] (Some 0%N); OSetType (0%N, 0) (mkCt 1 w);
+                               OCreate 7 3 1 (kind_req (KMemPort 4 8)) (Some 0%N); OConnect (1%N, 2) (Some (0%N, 0))] in
+  drv (mk 4%N) (1%N, 2) = Some (0%N, 0) /\ inv_check (mk 4%N) = true /\
+  drv (mk 5%N) (1%N, 2) = None /\
+  inv_check (connectInput (mk 5%N) (1%N, 2) (Some (0%N, 0))) = false.
+Proof. vm_compute. repeat split; reflexivity. Qed.
